@@ -18,6 +18,7 @@ package outbound
 //   policy <policy> <fixedIdx>                 DialerGroup.SetSelectionPolicy
 //   sel <t|u> <4|6> <isDns> <dom> <strict> <excl|->   SelectWithExclusionResult
 //   rand <type> <excl|->                       GetRandExcluded on one set (distinct answers of several draws)
+//   same <type>                                nothing happened (a probe that was skipped): print the set again
 // type: 0 dns-udp4 1 dns-udp6 2 tcp4 3 tcp6 4 data-udp4 5 data-udp6.  All times in ns.
 
 import (
@@ -64,6 +65,7 @@ type c15World struct {
 	pens     [][6]int64
 	policy   consts.DialerSelectionPolicy
 	lastSel  int
+	big      bool
 	lastBest map[int]string
 	st       *VStream
 	stats    *VStats
@@ -79,7 +81,7 @@ func c15NewDialer(opt *dialer.GlobalOption, name string) *dialer.Dialer {
 	return dialer.NewDialerContext(ctx, c15Noop{}, opt, dialer.InstanceOption{DisableCheck: true}, p)
 }
 
-func c15NewWorld(st *VStream, stats *VStats, n int, logInfo bool) *c15World {
+func c15NewWorld(st *VStream, stats *VStats, n int, logInfo bool, big bool) *c15World {
 	lg := logrus.New()
 	lg.SetOutput(io.Discard)
 	if logInfo {
@@ -89,6 +91,11 @@ func c15NewWorld(st *VStream, stats *VStats, n int, logInfo bool) *c15World {
 	}
 	w := &c15World{n: n, st: st, stats: stats, lastSel: -1, lastBest: map[int]string{}}
 	w.opt = &dialer.GlobalOption{Log: lg, CheckInterval: 30 * time.Second}
+	if big {
+		// a long check interval lets the backoff penalty take several values (1 s .. 20 s)
+		w.opt.CheckInterval = 10 * time.Minute
+	}
+	w.big = big
 	for i := 0; i < n; i++ {
 		w.dialers = append(w.dialers, c15NewDialer(w.opt, "n"+strconv.Itoa(i)))
 	}
@@ -229,6 +236,50 @@ func (w *c15World) sample(t, d int, lat int64) {
 		return w.afterTell(t, d)
 	})
 	w.st.Emit(fmt.Sprintf("sample %d %d %d", t, d, lat), out)
+	w.syncPens(d)
+}
+
+// probe goes through the REAL Dialer.Check: whether and what the sets are told is decided by the
+// production code; the latency is the one Check measured itself (read back from the collection).
+func (w *c15World) probe(t, d int, outcome int) {
+	var kind string
+	var lat time.Duration
+	var alive bool
+	pre := VRecover(func() string {
+		kind, lat, alive = dialer.VerifC15Probe(w.dialers[d], w.types[t], outcome)
+		return ""
+	})
+	if pre != "" {
+		w.st.Emit(fmt.Sprintf("told %d %d 0", t, d), pre)
+		return
+	}
+	w.stats.Inc("ev.probe_via_check." + kind)
+	switch kind {
+	case "sample":
+		w.st.Emit(fmt.Sprintf("sample %d %d %d", t, d, int64(lat)), VRecover(func() string { return w.afterTell(t, d) }))
+		w.syncPens(d)
+	case "told":
+		w.syncPens(d) // the penalty moves before the sets are told
+		a := "0"
+		if alive {
+			a = "1"
+		}
+		w.st.Emit(fmt.Sprintf("told %d %d %s", t, d, a), VRecover(func() string { return w.afterTell(t, d) }))
+	default:
+		// skip: nothing may have changed; `same` asks the model to print the domain's set again
+		w.st.Emit(fmt.Sprintf("same %d", t), VRecover(func() string {
+			if w.g == nil {
+				return "nogroup"
+			}
+			return w.takeCbs() + " " + w.setDump(t)
+		}))
+	}
+}
+
+func (w *c15World) setLevel(t, d, k int) {
+	dialer.VerifC15SetBackoffLevel(w.dialers[d], w.types[t], k)
+	w.syncPens(d)
+	w.stats.Inc(fmt.Sprintf("ev.backoff_level=%d", k))
 }
 
 func (w *c15World) fail(t, d int, force, traffic bool) {
@@ -262,6 +313,7 @@ func (w *c15World) traffic(t, d int) {
 	})
 	if told || strings.HasPrefix(out, "crash:") {
 		w.st.Emit(fmt.Sprintf("told %d %d 1", t, d), out)
+		w.syncPens(d)
 		w.stats.Inc("ev.traffic_revival")
 	} else {
 		w.stats.Inc("ev.traffic_noop")
@@ -295,7 +347,9 @@ func (w *c15World) exclArg(e int) (*dialer.Dialer, string) {
 	}
 }
 
-func (w *c15World) sel(udp, ip6, isDns bool, dom int, strict bool, excl int) {
+// via: 0 = SelectWithExclusionResult, 1 = Select (no exclusion), 2 = SelectWithExclusion — the
+// production wrappers; they do not return the admitting domain, printed as `*`.
+func (w *c15World) sel(udp, ip6, isDns bool, dom int, strict bool, excl int, via int) {
 	nt := &dialer.NetworkType{L4Proto: consts.L4ProtoStr_TCP, IpVersion: consts.IpVersionStr_4, IsDns: isDns, UdpHealthDomain: dialer.UdpHealthDomain(dom)}
 	l4, ip := "t", "4"
 	if udp {
@@ -317,7 +371,18 @@ func (w *c15World) sel(udp, ip6, isDns bool, dom int, strict bool, excl int) {
 		seen := map[string]bool{}
 		for i := 0; i < draws; i++ {
 			ntCopy := *nt
-			d, lat, selType, err := w.g.SelectWithExclusionResult(&ntCopy, strict, ex)
+			var d *dialer.Dialer
+			var lat time.Duration
+			var selType *dialer.NetworkType
+			var err error
+			switch via {
+			case 1:
+				d, lat, err = w.g.Select(&ntCopy, strict)
+			case 2:
+				d, lat, err = w.g.SelectWithExclusion(&ntCopy, strict, ex)
+			default:
+				d, lat, selType, err = w.g.SelectWithExclusionResult(&ntCopy, strict, ex)
+			}
 			if ntCopy != *nt {
 				seen["mutated-network-type"] = true
 			}
@@ -326,22 +391,23 @@ func (w *c15World) sel(udp, ip6, isDns bool, dom int, strict bool, excl int) {
 				case errors.Is(err, ErrNoAliveDialer):
 					seen["err=noalive"] = true
 					w.stats.Inc("sel.noalive")
-				case strings.Contains(err.Error(), "no dialer in this group"):
-					seen["err=nodialers"] = true
-				case strings.Contains(err.Error(), "out of range"):
-					seen["err=range"] = true
 				default:
-					seen["err=other:"+err.Error()] = true
+					seen["err=other"] = true // which error (empty group, index out of range) is outside the property
 				}
 				continue
 			}
-			if d == nil || selType == nil {
+			if d == nil || (via == 0 && selType == nil) {
 				seen["ok-with-nil"] = true
 				continue
 			}
 			di := w.dialerIdx(d)
-			si := selType.Index() - 2
-			seen[fmt.Sprintf("%d:%d:%d", di, int64(lat), si)] = true
+			si := want
+			if via == 0 {
+				si = selType.Index() - 2
+				seen[fmt.Sprintf("%d:%d:%d", di, int64(lat), si)] = true
+			} else {
+				seen[fmt.Sprintf("%d:%d:*", di, int64(lat))] = true
+			}
 			w.lastSel = di
 			if i == 0 {
 				w.stats.Inc("sel.ok")
@@ -406,7 +472,18 @@ func (w *c15World) rand(t, excl int) {
 
 // ---------------------------------------------------------------- generators
 
-func c15PickTol(r *VRand) int64 {
+// "big" scenarios work in seconds: tolerance and latencies comparable to the backoff penalties
+// (1 s, 2 s, 4 s ... 20 s) so that penalised nodes stay in the race.
+const c15Sec = int64(time.Second)
+
+func c15PickTol(r *VRand, big bool) int64 {
+	if big {
+		return []int64{0, c15Sec / 2, c15Sec, 3 * c15Sec, 3 * c15Sec}[r.Intn(5)]
+	}
+	if r.Chance(0.06) {
+		// inside the theorems, never meaningful in practice: negative and very large tolerances
+		return []int64{-5, -50, 5000, 1 << 40}[r.Intn(4)]
+	}
 	switch r.Intn(8) {
 	case 0, 1:
 		return 0
@@ -425,6 +502,10 @@ func c15PickTol(r *VRand) int64 {
 
 // boundary-heavy latency values: small, around the tolerance, exact multiples (ties are common)
 func c15PickLat(r *VRand, tol int64) int64 {
+	if tol >= c15Sec/2 && tol < 1<<39 {
+		base := []int64{c15Sec / 5, c15Sec / 2, c15Sec, c15Sec + 1, 3 * c15Sec / 2, 2 * c15Sec, 3 * c15Sec, 5 * c15Sec, tol, tol + 1, 2 * tol, tol + c15Sec}
+		return base[r.Intn(len(base))]
+	}
 	base := []int64{1, 2, 3, 5, 10, 49, 50, 51, 99, 100, 101, 150, 200, 1000}
 	if tol > 1 {
 		base = append(base, tol-1, tol, tol+1, 2*tol, 2*tol+1, 3*tol)
@@ -496,10 +577,24 @@ func (w *c15World) event(r *VRand, tol int64, fam int) {
 	}
 	t := w.pickType(r, fam)
 	d := r.Intn(w.n)
+	if w.big && r.Chance(0.12) {
+		w.setLevel(t, d, r.Intn(7))
+		return
+	}
 	switch x := r.Intn(100); {
-	case x < 46:
+	case x < 4:
+		// burst: fill and wrap the 10-slot latency ring of one (domain, node)
+		k := 12 + r.Intn(14)
+		for i := 0; i < k; i++ {
+			w.sample(t, d, c15PickLat(r, tol))
+		}
+		w.stats.Inc("ev.burst_over_ring")
+	case x < 36:
 		w.sample(t, d, c15PickLat(r, tol))
 		w.stats.Inc("ev.sample")
+	case x < 46:
+		// through the real Dialer.Check: success / "no applicable IP" skip / error (two attempts)
+		w.probe(t, d, []int{0, 0, 0, 1, 2}[r.Intn(5)])
 	case x < 72:
 		w.fail(t, d, true, true)
 		w.stats.Inc("ev.forced_death")
@@ -555,7 +650,16 @@ func (w *c15World) selection(r *VRand, fam int) {
 	default:
 		excl = w.n
 	}
-	w.sel(udp, ip6, isDns, dom, r.Chance(0.5), excl)
+	via := 0
+	switch x := r.Intn(10); {
+	case x < 2 && excl < 0:
+		via = 1
+		w.stats.Inc("sel.via_Select")
+	case x < 4:
+		via = 2
+		w.stats.Inc("sel.via_SelectWithExclusion")
+	}
+	w.sel(udp, ip6, isDns, dom, r.Chance(0.5), excl, via)
 }
 
 func c15Scenario(r *VRand, st *VStream, stats *VStats, nOps int, outOfBounds bool) {
@@ -563,8 +667,12 @@ func c15Scenario(r *VRand, st *VStream, stats *VStats, nOps int, outOfBounds boo
 	if outOfBounds && n == 0 {
 		n = 2
 	}
-	w := c15NewWorld(st, stats, n, r.Chance(0.25))
-	tol := c15PickTol(r)
+	big := !outOfBounds && r.Chance(0.2)
+	w := c15NewWorld(st, stats, n, r.Chance(0.25), big)
+	if big {
+		stats.Inc("scenario.seconds_scale_with_backoff_levels")
+	}
+	tol := c15PickTol(r, big)
 	fam := r.Intn(2)
 	stats.Inc(fmt.Sprintf("scenario.n=%d", n))
 	stats.Inc(fmt.Sprintf("scenario.tol=%d", tol))
@@ -630,20 +738,36 @@ func TestVerifC15(t *testing.T) {
 
 	// separate stream: one offset at/around time.Hour (the former sentinel of the minimum scans)
 	st2 := VOpenStream("c15oob")
-	// regression witness of fix addc261 (former finding c15-hour-sentinel, design_notes/C15.md):
-	// two nodes, node 0 carries add_latency = 1h; node 1 dies for tcp4; node 0 is probed fine.
-	{
-		w := c15NewWorld(st2, stats, 2, false)
-		w.makeGroup(0, consts.DialerSelectionPolicy_MinLastLatency, 0, []int64{c15Hour, 0})
-		w.fail(2, 1, true, true)
-		w.fail(2, 0, true, true)
-		w.sample(2, 0, 1000000)
-		w.sel(false, false, false, 0, true, -1)
-		_ = w.g.Close()
-	}
 	for i := 0; i < nScen/10+3; i++ {
 		c15Scenario(r, st2, stats, 30, true)
 	}
 	st2.Close()
 	stats.Add("ops_oob", st2.N)
+
+	// own stream (found by name, not by position)
+	st3 := VOpenStream("c15wit")
+	// regression witness of fix addc261 (former finding c15-hour-sentinel, design_notes/C15.md):
+	// two nodes, node 0 carries add_latency = 1h; node 1 dies for tcp4; node 0 is probed fine.
+	{
+		w := c15NewWorld(st3, stats, 2, false, false)
+		w.makeGroup(0, consts.DialerSelectionPolicy_MinLastLatency, 0, []int64{c15Hour, 0})
+		w.fail(2, 1, true, true)
+		w.fail(2, 0, true, true)
+		w.sample(2, 0, 1000000)
+		w.sel(false, false, false, 0, true, -1, 0)
+		_ = w.g.Close()
+	}
+	// interpretation witness (design_notes/C15.md, "Interpretation"): tolerance 30, node 0 measured
+	// 100 is the choice, node 1 alive and never measured; node 0's next sample 101 hands the choice to
+	// node 1 (ranked as latency 0 by the code's optimistic start-up semantics).
+	{
+		w := c15NewWorld(st3, stats, 2, false, false)
+		w.makeGroup(30, consts.DialerSelectionPolicy_MinLastLatency, 0, []int64{0, 0})
+		w.sample(2, 0, 100)
+		w.sel(false, false, false, 0, true, -1, 0)
+		w.sample(2, 0, 101)
+		w.sel(false, false, false, 0, true, -1, 0)
+		_ = w.g.Close()
+	}
+	st3.Close()
 }
